@@ -307,6 +307,9 @@ func chainOf(v ssa.Value) (ssa.Value, []string) {
 				v = t.X
 				continue
 			}
+		case *ssa.ChangeInterface:
+			v = t.X
+			continue
 		case *ssa.FieldAddr:
 			if f := core.FieldOf(t); f != nil {
 				path = append([]string{f.Name()}, path...)
